@@ -459,6 +459,8 @@ fn targeted_inputs() -> Vec<&'static str> {
         "a\u{feff}b", "\u{feff}a", "\u{feff}\u{feff}a", "a\r\nb", "\r\n", "\r", "<!DOCTYPE html\r\nPUBLIC \"x\"><b>", "<!DOCTYPE html\rPUBLIC \"x\">\n<b>",
         "<!\r\n--x-->", "<!\r--x-->", "<!DOCTYPE a\rSYSTEM 'x'>", "<!doc\rtype>", "<a x=\r\n\"v\">\n<b>", "<pre>\r\nx</pre>", "<pre>\nx", "<textarea>\r\n\r\nx</textarea>",
         "<script>a</script>b", "<script>a</scr\nipt>", "&am\r\np;", "&amp\r\nx", "&#\r\n1;", "&#x\r4;", "x&notit;y", "&notin\r\n;", "<svg><![CDATA[a\r\nb]]\r>]]></svg>",
+        "<!DOCTYPE a\r\n\n>\n<b>", "<!DOCTYPE a\r\n\nPUBLIC 'x'>\n<b>", "<!DOCTYPE a\rPUB\nLIC>\n<b>", "<!DOCTYPE a\rsys\n\ntem>\n<b>", "<!\r\n\n--x-->\n<b>", "<!-\n-x-->\n<b>", "<svg><![CD\n\nATA[x]]>\n<b>", "<!DOC\r\n\nTYPE a>\n<b>",
+        "<a x=\r \n'v'>\n<b>", "<a x=\r\n\n'v'>\n<b>", "&#13;\n<b>", "&#xd\n\n<b>", "<a b=&#13;\n>\n<b>",
         "<![CD\rATA[x]]>", "<title>a</tit\rle></title>", "<!--a\r\n-\r\n-\r\n>-->", "<a\r\nb\r\n=\r\nc\r\n>", "<a b='\r\n'>", "</a\r\n>", "<a/\r\n>",
     ]
 }
@@ -506,9 +508,24 @@ pub fn run(args: &Args) -> (Meta, Stats) {
                 st.count("scaled_up_cases");
                 continue;
             }
-            let input = gen::tok_soup(&mut rng, 8);
+            let mut input = gen::tok_soup(&mut rng, 8);
             if input.chars().count() > 160 {
                 continue;
+            }
+            // one case in four: line breaks dropped at random places (inside look-ahead keywords, after `=`, inside
+            // references ...) and a line-numbered token at the end, so that a break lost or counted twice around a
+            // suspension shows in the lines that follow
+            if k % 4 == 1 {
+                let mut chars: Vec<char> = input.chars().collect();
+                for _ in 0..rng.range(1, 4) {
+                    let at = rng.below(chars.len() + 1);
+                    for (i, ch) in rng.pick_s(&["\r", "\n", "\r\n", "\r\n\n", "\n\n", "\r\r\n", "\r \n", "\r\t\n"]).chars().enumerate() {
+                        chars.insert(at + i, ch);
+                    }
+                }
+                input = chars.into_iter().collect();
+                input.push_str("\n<b>");
+                st.count("soup_cases_with_sprinkled_line_breaks");
             }
             let start = if rng.chance(1, 3) { *rng.pick(&gen::START_STATES) } else { StartState::Data };
             let last_tag = if start != StartState::Data { Some(rng.pick(&["title", "script", "style", "xmp", "textarea"]).to_string()) } else { None };
